@@ -64,7 +64,8 @@ def run_cases_list(chk):
                 cases.append(dict(kind="run", name=f"cell:{nm}:{ext}", ins=True, model=model, kwargs=kw, model_attrs={}, run_kwargs={}, ext=ext))
     for i, c in enumerate(cases):
         c["seed"] = chk.seed
-        c["outdir"] = os.path.join(chk.scratch, f"run-{i}")
+        # output directories as users name them: plain, with a dot in the name (version suffixes), with a trailing slash
+        c["outdir"] = os.path.join(chk.scratch, [f"run-{i}", f"run.v{i}", f"run-{i}.d/"][i % 3])
         c["_timeout"] = 400
     return cases
 
